@@ -166,7 +166,45 @@ func init() {
 	beOracles["C08"] = (*beRun).oracleC08
 }
 
-func genC08(r *rand.Rand, _ int, _ string) *Scenario {
+// genJanitorRace: born-expired keys that the janitor is about to delete are rewritten as fresh
+// by clients that wake up while the cleanup cycle is walking the shards (fast path off, so the
+// clock ticks at every janitor yield and the clients' timers fire mid-cycle).
+func genJanitorRace(r *rand.Rand) *Scenario {
+	sc := genBEBase(r, "conc")
+	be := sc.BE
+	sc.NoFastPath = true
+	sc.TickNs = pick(r, int64(100), 100, 1000)
+	iv := pick(r, ms, 5*ms)
+	be.Cfg = BEConfig{TTLNs: 3600 * sec, Jitter: -1, Strategy: r.IntN(3), JanitorIntervalNs: iv, DeleteExpiredAfterNs: ms}
+	be.Keys, be.Groups = genKeys(r, 4, 0)
+
+	for k := range be.Keys {
+		be.Root = append(be.Root, BEOp{Kind: "write", Key: k, HasTTL: true, TTLNs: -3600 * sec})
+	}
+
+	// a cycle over 128 shards takes about 128*4 yields
+	span := 520 * sc.TickNs
+	nc := 1 + r.IntN(4)
+
+	for c := 0; c < nc; c++ {
+		k := r.IntN(len(be.Keys))
+		be.Clients = append(be.Clients, []BEOp{
+			{Kind: "sleep", SleepNs: iv - 5*sc.TickNs + r.Int64N(span)},
+			{Kind: "write", Key: k},
+			{Kind: "read", Key: k},
+		})
+	}
+
+	sc.Sched = genSched(r, 600)
+
+	return sc
+}
+
+func genC08(r *rand.Rand, run int, _ string) *Scenario {
+	if run%8 == 7 {
+		return genJanitorRace(r)
+	}
+
 	sc := genBEBase(r, "conc")
 	be := sc.BE
 	be.Cfg = BEConfig{TTLNs: 3600 * sec, Jitter: pick(r, -1.0, 0), Strategy: r.IntN(3), Stats: chance(r, 0.15), Logger: chance(r, 0.1)}
